@@ -5,7 +5,10 @@ import sys
 
 HERE = os.path.dirname(os.path.abspath(__file__))
 sys.path.insert(0, HERE)
-os.environ.setdefault('PYTHONHASHSEED', '0')
+if os.environ.get('PYTHONHASHSEED') != '0':
+    # a run must be a pure function of the code under test and VERIF_SEED: fix the string hash seed
+    os.environ['PYTHONHASHSEED'] = '0'
+    os.execv(sys.executable, [sys.executable] + sys.argv)
 if os.path.isdir(os.path.join(HERE, '.deps')):
     sys.path.append(os.path.join(HERE, '.deps'))
 
